@@ -164,7 +164,13 @@ def _enum_class_hooks(ctx: Ctx):
             if reported:
                 break          # one witness per enumeration is enough
             try:
-                r = it.call(reg.hook, [cand, cref], closure_env={reg.conv_name: Record("Converter", {})})
+                clo = getattr(reg, "closure", None)
+                if clo is not None and getattr(clo, "env", None) is not None and callable(clo):
+                    # a hook made by a factory: evaluated in the environment the registration fold built for it (its
+                    # lookup table, flags)
+                    r = clo(cand, cref)
+                else:
+                    r = it.call(reg.hook, [cand, cref], closure_env={reg.conv_name: Record("Converter", {})})
                 accepted = True
             except Raised:
                 accepted = False
